@@ -349,3 +349,36 @@ class Skeleton:
                     lost = ks - excluded
                     out.append({"fn": path, "pid": pid, "site": t[3], "lost": lost, "exit": x, "term": t})
         return out
+
+
+    # ------------------------------------------------------------------ direct inspection of the input
+    INSPECTORS = ("first", "last", "get", "iter", "starts_with", "ends_with", "contains", "is_empty", "split_first", "split_last",
+                  "split", "splitn", "position", "find", "chunks", "windows", "eq", "ne", "cmp", "partial_cmp", "to_vec", "binary_search")
+
+    def direct_inspections(self, exempt=("take_while", "satisfy")):
+        """Calls that look at the bytes of an input-derived slice outside the parser primitives. The skeleton describes the
+        grammar exactly only if input is consumed solely through parser applications; a peek makes it inexact."""
+        out = {}
+        for path, f in sorted(self.fns.items()):
+            name = path.split("::")[-1]
+            if name in exempt:
+                continue
+            for x in f["exits"]:
+                for e in x.effects:
+                    if e[0] == "call" and e[1].startswith(("core::slice::", "core::iter::", "core::cmp::", "core::array::")) and e[1].split("::")[-1] in self.INSPECTORS and e[2]:
+                        a = e[2][0]
+                        if self._is_input_slice(a, f, x):
+                            out[(path, e[3])] = (path, e[1], e[3], show_term(a))
+                    if e[0] == "index" and self._is_input_slice(e[1], f, x):
+                        k = e[2]
+                        if k[0] == "lit":   # input[k]: byte access
+                            out[(path, e[3])] = (path, "index by constant", e[3], show_term(e[1]))
+        return list(out.values())
+
+    def _is_input_slice(self, t, f, x):
+        if t == f["inp"]:
+            return True
+        try:
+            return self.chain(t, f["inp"], x, f["ps"]) is not None and t[0] != "array"
+        except RecursionError:
+            return False
